@@ -12,6 +12,12 @@
 (*   forged_pad / forged_ext   a canon frame altered AFTER signing: payload   *)
 (*              lengthened (zeros / unknown bytes), length and checksum put   *)
 (*              right again, signature block kept - must never be delivered   *)
+(*   badck / badck_extra   a frame whose checksum is NOT the one of the       *)
+(*              message (one bit off / computed with another CRC_EXTRA, as a  *)
+(*              sender with another definition of the message would) and      *)
+(*              whose signature is VALID over exactly these bytes: the        *)
+(*              signature covers the checksum field but not CRC_EXTRA, so     *)
+(*              the checksum gate must still refuse it (C02)                  *)
 (* canon and unknown come with every timestamp of a small alphabet so that    *)
 (* the harness can build window histories that mix known and unknown ids.     *)
 EXTENDS Integers, Sequences, FiniteSets, TLC, Json, IOUtils, MavFrame, MavMessage
@@ -35,7 +41,7 @@ Picked == {Nth(Cands, Seed * 7), Nth(Cands, Seed * 7 + 31), Nth(Cands, Seed * 13
 
 UnknownId == CHOOSE id \in 70000..70300 : \A k \in 1..Len(Dl) : Defs[Dl[k]].id # id
 
-Shapes == {"canon", "padded", "extended", "empty", "forged_pad", "forged_ext"}
+Shapes == {"canon", "padded", "extended", "empty", "forged_pad", "forged_ext", "badck", "badck_extra"}
 
 Init == st \in ({[kind |-> "canon", k |-> k, ti |-> ti] : k \in Picked, ti \in 1..Len(TS)}
                 \cup {[kind |-> s, k |-> k, ti |-> 4] : s \in Shapes \ {"canon"}, k \in Picked}
@@ -69,6 +75,14 @@ Vec ==
                [] st.kind = "padded" -> mk(zeroTail)
                [] st.kind = "extended" -> mk(full \o <<9, 8, 7>>)
                [] st.kind = "empty" -> mk(<<>>)
+               \* wrong checksum under a valid signature (signed last, over the wrong checksum)
+               [] st.kind = "badck" -> LET f0 == Mk(2, 1, 0, (7 + Len(full)) % 256, 3, 190, def.id, full, 0, 9, TS[st.ti], Z6)
+                                           ck == Checksum(f0, extra)
+                                           f1 == [f0 EXCEPT !.ck = IF ck % 2 = 0 THEN ck + 1 ELSE ck - 1]
+                                       IN [f1 EXCEPT !.sig = Sign(Key, f1)]
+               [] st.kind = "badck_extra" -> LET f0 == Mk(2, 1, 0, (7 + Len(full)) % 256, 3, 190, def.id, full, 0, 9, TS[st.ti], Z6)
+                                                 f1 == WithCk(f0, (extra + 1) % 256)
+                                             IN [f1 EXCEPT !.sig = Sign(Key, f1)]
                \* altered after signing: signature block of the canonical frame kept
                [] st.kind = "forged_pad" -> WithCk([canon EXCEPT !.payload = zeroTail], extra)
                [] st.kind = "forged_ext" -> WithCk([canon EXCEPT !.payload = full \o <<5, 6>>], extra)
